@@ -34,7 +34,15 @@ import (
 	_ "google.golang.org/protobuf/types/known/wrapperspb"
 )
 
-const shPkg = "shapes.v1"
+// shPkg is the package of the file of the case being built: "shapes.v1", or "" for a file without a package statement
+var shPkg = "shapes.v1"
+
+func shQualify(name string) string {
+	if shPkg == "" {
+		return name
+	}
+	return shPkg + "." + name
+}
 
 // shAnn is one annotation: class validate | j5 | list | psmkey, the oneof arm of the option message and a variant.
 type shAnn struct {
@@ -87,6 +95,16 @@ type shCase struct {
 	Only     string `json:"only,omitempty"`     // run stages up to: set | cache | newroot | all
 	MinCrash bool   `json:"mincrash,omitempty"` // minimise a case whose evaluation kills the worker (sub-process evaluation)
 	NoMin    bool   `json:"nomin,omitempty"`
+	// NoPkg: the file has no package statement, and its messages are called Am, Bm, Cm, ... (names that differ in their
+	// first letter only)
+	NoPkg bool `json:"nopkg,omitempty"`
+}
+
+func shPkgField() *string {
+	if shPkg == "" {
+		return nil
+	}
+	return proto.String(shPkg)
 }
 
 var shScalarType = map[string]descriptorpb.FieldDescriptorProto_Type{
@@ -456,14 +474,14 @@ func shFullName(c *shCase, msgIdx int) string { // 0-based
 	if m.Parent > 0 && m.Parent-1 != msgIdx && m.Parent <= len(c.Msgs) {
 		return shFullName(c, m.Parent-1) + "." + m.Name
 	}
-	return shPkg + "." + m.Name
+	return shQualify(m.Name)
 }
 
 func shEnumFullName(c *shCase, e *shEnum) string {
 	if e.Parent > 0 && e.Parent <= len(c.Msgs) {
 		return shFullName(c, e.Parent-1) + "." + e.Name
 	}
-	return shPkg + "." + e.Name
+	return shQualify(e.Name)
 }
 
 func shMapEntryName(field string) string {
@@ -505,7 +523,7 @@ func shJSONName(s string) string {
 func shBuild(c *shCase) (*shBuilt, error) {
 	fd := &descriptorpb.FileDescriptorProto{
 		Name:    proto.String("shapes/v1/shapes.proto"),
-		Package: proto.String(shPkg),
+		Package: shPkgField(),
 		Syntax:  proto.String("proto3"),
 	}
 	deps := map[string]bool{}
@@ -783,7 +801,10 @@ func shBuild(c *shCase) (*shBuilt, error) {
 	}
 	// .proto text
 	var sb strings.Builder
-	sb.WriteString("syntax = \"proto3\";\npackage " + shPkg + ";\n")
+	sb.WriteString("syntax = \"proto3\";\n")
+	if shPkg != "" {
+		sb.WriteString("package " + shPkg + ";\n")
+	}
 	for _, d := range fd.Dependency {
 		sb.WriteString("import \"" + d + "\";\n")
 	}
